@@ -41,7 +41,7 @@ ASSUMPTIONS = ["generated string values are non-empty printable ASCII without qu
 PROBES = ["header_cards_mod32==0", "directio_pad_0_bytes", "directio_off_unaligned", "multi_file_last_partial",
           "listing_last_is_not_highest", "override_attempted", "default_header_argument", "template_loaded",
           "record_after_aborted_record", "array_source", "reducer_compared", "single_antenna_user_nants",
-          "blimpy_full_walk", "end_prefixed_key", "recording_onto_existing_raw"]
+          "blimpy_full_walk", "end_prefixed_key", "recording_onto_existing_raw", "retry_over_leftover_files"]
 
 OWNED = ["NBITS", "NPOL", "OBSNCHAN", "NANTS", "BLOCSIZE", "TBIN", "CHAN_BW", "OBSBW", "OBSFREQ", "SCANLEN"]
 STR_POOL = ["x", "hello", "GBT", "some value", "a.b", "1e5", "B0329+54", "with  two  spaces", "UPPER_lower-09",
@@ -581,7 +581,10 @@ def execute(sc, ctx):
             ctx.event("record_aborted")
             op2 = dict(op, fault=None)
             op2["_log"] = log
-            stem = ctx.seams.path("r%dretry" % j)
+            if (j + op["num_blocks"]) % 2:
+                stem = ctx.seams.path("r%dretry" % j)
+            else:
+                ctx.hit("retry_over_leftover_files")       # same stem: over whatever the aborted attempt left behind
             if not used_default:
                 header = W.header_arg(hspec)
             status, exc = W.do_record(ctx, backend, stem, op2, header=header, use_default_header=used_default)
